@@ -78,7 +78,7 @@ ModelStep(e) ==
     [] e.ev = "DeliverTx"  -> DeliverTx(m, e.tx)
     [] e.ev = "EndBlock"   -> EndBlock(m)
     [] e.ev = "Commit"     -> Commit(m)
-    [] e.ev = "CheckTx"    -> CheckTx(m, e.tx)
+    [] e.ev = "CheckTx"    -> IF "recheck" \in DOMAIN e /\ e.recheck THEN Recheck(m, e.tx) ELSE CheckTx(m, e.tx)
     [] e.ev = "Restart"    -> Restart(m)
 
 \* steps the model does not describe: contract execution (EvmBridge.tla and the reference run decide those)
